@@ -193,7 +193,10 @@ def case_signature(prop, c):
     if "ent" in c:
         parts.append("L=%d" % servegen.unlimbs(c["ent"]["len"]))
         parts.append("etag=%s" % c["ent"]["etag"].get("s"))
-    for k in ("hdr", "cap", "ae", "level", "prog", "scripts", "sched", "rseed", "rand_cdrop", "echo", "path", "sig"):
+        if c["ent"].get("mt", {}).get("k") == "t":
+            parts.append("mtime=%s.%09d" % (c["ent"]["mt"].get("sr", c["ent"]["mt"]["s"]), c["ent"]["mt"]["ns"]))
+    for k in ("hdr", "cap", "ae", "level", "prog", "scripts", "sched", "rseed", "rand_cdrop", "echo", "path", "sig",
+              "kind", "size", "a", "b", "mt_s", "mt_ns", "trunc", "steps", "target", "ranges", "polls"):
         if k in c:
             parts.append("%s=%s" % (k, json.dumps(c[k], separators=(",", ":"))))
     return " | ".join(parts)
